@@ -10,7 +10,13 @@
 use std::collections::HashMap;
 use std::collections::hash_map::Entry;
 use std::hash::Hash;
+#[cfg(not(loom))]
 use std::sync::{Arc, Mutex, MutexGuard};
+
+#[cfg(loom)]
+use loom::sync::{Mutex, MutexGuard};
+#[cfg(loom)]
+use std::sync::Arc;
 
 /////////////////////////////////////////////// Value //////////////////////////////////////////////
 
